@@ -247,11 +247,41 @@ def cfg_node_of(fn, node):
     return None
 
 
+_NEG = {ast.In: ast.NotIn, ast.NotIn: ast.In, ast.Eq: ast.NotEq, ast.NotEq: ast.Eq, ast.Lt: ast.GtE, ast.GtE: ast.Lt,
+        ast.Gt: ast.LtE, ast.LtE: ast.Gt, ast.Is: ast.IsNot, ast.IsNot: ast.Is}
+_closure_cache = {}
+
+
+def close_under_negation(facts):
+    """Add the positive form of every falsified single comparison: F:`a not in b` gives T:`a in b`,
+    F:`a == b` gives T:`a != b`, F:`a < b` gives T:`a >= b`, ... (and the other way round)."""
+    out = set(facts)
+    for k, t in list(facts):
+        if k not in ("T", "F") or t.startswith("iter:"):
+            continue
+        key = (k, t)
+        hit = _closure_cache.get(key)
+        if hit is None:
+            hit = ()
+            try:
+                e = ast.parse(t, mode="eval").body
+            except SyntaxError:
+                e = None
+            if isinstance(e, ast.Compare) and len(e.ops) == 1 and type(e.ops[0]) in _NEG:
+                neg = ast.Compare(left=e.left, ops=[_NEG[type(e.ops[0])]()], comparators=e.comparators)
+                hit = (("T" if k == "F" else "F", norm(neg)),)
+            elif isinstance(e, ast.UnaryOp) and isinstance(e.op, ast.Not):
+                hit = (("T" if k == "F" else "F", norm(e.operand)),)
+            _closure_cache[key] = hit
+        out.update(hit)
+    return out
+
+
 def facts_at(fn, node):
-    """All facts known to hold when ``node`` is evaluated."""
+    """All facts known to hold when ``node`` is evaluated (closed under negation of single comparisons)."""
     n = cfg_node_of(fn, node)
     out = set()
     if n is not None:
         out |= cfg_facts(fn)[n.id]
     out |= context_facts(fn, node)
-    return out
+    return close_under_negation(out)
